@@ -66,6 +66,22 @@ pub fn scenarios(tier: Tier) -> Vec<Scenario> {
         sc.max_readers = k;
         out.push(sc);
     }
+    // writers whose header write fails (commit reports the error, nothing of it is visible): the
+    // pages such a transaction would have freed belong to the committed state and to the readers
+    {
+        let mut alpha: Vec<Action> = vec![Action::OpenReader, Action::CloseReader(0), Action::CloseReader(1)];
+        for b in m.iter().take(3) {
+            alpha.push(Action::Tx { ops: b.clone(), commit: true });
+        }
+        for b in [&m[1], &m[2], &m[3]] {
+            alpha.push(Action::TxFail { ops: b.clone(), call: 4000 });
+        }
+        let or = Oracles { readers_frozen: true, dump_after: true, ..Oracles::NONE };
+        let mut sc = Scenario::new("readers-failed-header-write-k2", Cfg { num_pages: 2000, ..Cfg::default() }, setup(), Box::new(alpha), if q { 5 } else { 7 }, or);
+        sc.poison_unmap = true;
+        sc.max_readers = 2;
+        out.push(sc);
+    }
     // values that make a leaf end exactly at the end of its page run (page header 40 + element 32 + key 1
     // + 1975 = 2048): a write that spills a single byte further lands in the page behind it
     {
